@@ -1053,7 +1053,7 @@ func (o *orch) writeEvidence(a *agg, c counts, nviol int) {
 		distinct = len(a.ntx)
 		distinctWhat = "expression texts with a non-null compared outcome"
 	case "C07":
-		rule = "2-7 simulated clients, 1-7 calls each (general runs, compile storms, function-family runs, invalid-text runs, deep-nesting runs, big-data runs), sharing compiled Expressions and documents, under a seeded schedule (random walk, PCT depth 1-3, hot-site walk, sequential, strided and hot preemption sweeps), plain and -race builds, cold-start race processes; distinct_nontrivial = distinct switch sequences (hash of the (from task, site, to task) list) with at least one preemption, i.e. distinct interleavings actually executed"
+		rule = "2-7 simulated clients, 1-7 calls each (general runs, compile storms, function-family runs, invalid-text runs, deep-nesting runs, big-data runs, abort-then-overlap runs, and the hot index space described under hot_space), sharing compiled Expressions and documents, under a seeded schedule (random walk, PCT depth 1-3, hot-site walk, sequential, strided and hot preemption sweeps), plain and -race builds, cold-start race processes; distinct_nontrivial = distinct switch sequences (hash of the (from task, site, to task) list) with at least one preemption, i.e. distinct interleavings actually executed"
 		distinct = len(a.sw)
 		distinctWhat = "distinct interleavings (switch-sequence hashes)"
 	case "C15":
@@ -1078,6 +1078,8 @@ func (o *orch) writeEvidence(a *agg, c counts, nviol int) {
 		"samples":             samples,
 		"simulated_runs":      a.s.Runs,
 		"runs_by_kind":        a.byKind,
+		"hot_space": map[string]any{"hot_sites_in_repository": o.hotSites(), "shapes_selected_by_probe": os.Getenv("JMSIM_HOT_KINDS"), "plain_runs": c.hot, "race_runs": c.hotRace,
+			"note": "C07 only (run indices from 2^40, counted in runs_by_kind under plain/race): function-family, compile-storm, invalid-text and abort-then-overlap runs under schedules that preempt almost only next to shared-state accesses; restricted to the shapes a sequential probe saw touching shared state; a quarter of the budget over all shapes when hot sites exist but none was reached, a token budget when there is none"},
 		"processes":           a.procs,
 		"runs_per_hour":       perHour(a.s.Runs),
 		"seeds_per_hour":      perHour(a.s.Runs),
